@@ -440,7 +440,24 @@ func addHTTP(m map[string]Intrinsic) {
 	// --- CONNECT tunnel plumbing: TLS and request framing are outside; the request loop of
 	// handleCONNECT is driven by a harness-provided request source ---
 	m["crypto/tls.Server"] = func(vm *VM, fn *ssa.Function, args []Value) Value {
+		// the handshake itself is outside; what the server would present is recorded: the first
+		// certificate of the configuration it was given (vPresentedLeaf)
+		if cfgp, ok := args[1].(PtrV); ok && cfgp.Obj != nil {
+			if certs, ok := vm.getF(cfgp, "Certificates").(SliceV); ok && certs.Len > 0 {
+				first := vm.sliceElems(certs)[0]
+				if cs, ok := first.(*StructV); ok {
+					ct := vm.typeByName("crypto/tls", "Certificate")
+					vm.P.env["tls.presented"] = cs.F[fieldIdx(vm, ct, "Leaf")]
+				}
+			}
+		}
 		return vm.newStruct(vm.typeByName("crypto/tls", "Conn"), "tls.Conn")
+	}
+	m["vocab.vPresentedLeaf"] = func(vm *VM, fn *ssa.Function, args []Value) Value {
+		if v, ok := vm.P.env["tls.presented"]; ok {
+			return v
+		}
+		return PtrV{}
 	}
 	m["(*crypto/tls.Conn).Handshake"] = func(vm *VM, fn *ssa.Function, args []Value) Value { return IfaceV{} }
 	m["(*crypto/tls.Conn).Close"] = func(vm *VM, fn *ssa.Function, args []Value) Value {
@@ -675,9 +692,6 @@ func addHTTP(m map[string]Intrinsic) {
 	m["vocab.vOnEncode"] = func(vm *VM, fn *ssa.Function, args []Value) Value {
 		vm.P.env["onencode"] = args[0]
 		return nil
-	}
-	m["reflect.ValueOf"] = func(vm *VM, fn *ssa.Function, args []Value) Value {
-		return vm.zero(fn.Signature.Results().At(0).Type())
 	}
 	// vOverride(name, f): calls of the named /repo function are routed to the harness
 	// function f (used to cut reflect-driven code at a documented stub)
